@@ -675,7 +675,8 @@ def run_fault(prop, tier, seed, model=True):
                    'monitors': ','.join(mons), 'status': bad['status'],
                    'differs': ','.join(m[8:] for m in bad['monitors'] if m.startswith('differs:')),
                    'residue': ','.join(m[8:] for m in bad['monitors'] if m.startswith('residue:')),
-                   'faults': 2 if '+' in bad['fault']['kind'] else 1}
+                   'faults': 2 if '+' in bad['fault']['kind'] else 1,
+                   'at': bad['fault']['at']}
             f = findings.lookup(prop, sig)
             why = '%s: %s with %s at statement %d (%s) answered %s' % (
                 ','.join(mons), bad['label'], bad['fault']['kind'], bad['fault']['k'],
